@@ -137,7 +137,7 @@ func (w *World) Unit(name string) (*Unit, error) {
 func (w *World) build(name string, fn *load.Func, lit *ast.FuncLit, recv *ast.FieldList, ft *ast.FuncType, body *ast.BlockStmt, outer *flow.Canon) *Unit {
 	info := fn.Pkg.TypesInfo
 	u := &Unit{W: w, Name: name, Fn: fn, Lit: lit, Body: body, Type: ft, pc: map[*flow.Block]*flow.F{}}
-	u.G = flow.BuildInlining(body, w.noReturn(info), w.inliner(fn, lit != nil))
+	u.G = flow.BuildInlining(body, w.noReturn(info), w.inliner(fn, false))
 	var alias map[types.Object]flow.LocalAlias
 	if outer == nil && w.Vocab != nil {
 		alias = w.aliasesFor(name, info, recv, ft, body, u.G.Inlined)
